@@ -1,11 +1,152 @@
-/- Driver ops for C14. -/
+/- Driver ops for C14 (resize / pad / trim / zoom). -/
 import Driver.Loop
+import Model.Resize
 
 open Lean Model
 
 namespace Driver.C14
 
-def ops : List (String × Op) := []
+def getPair (f : Json → Except String β) (j : Json) : Except String (β × β) := do
+  match (← getArr j) with
+  | [a, b] => pure (← f a, ← f b)
+  | _ => throw "expected pair"
+
+def getGeom (j : Json) : Except String (Impl.Geom Rat) := do
+  let (sy, sx) ← getPair getRat (← field j "scales")
+  let (oy, ox) ← getPair getRat (← field j "origin")
+  pure { sy := sy, sx := sx, oy := oy, ox := ox }
+
+def getGMask (j : Json) : Except String (Impl.GMask Rat) := do
+  pure { mask := ← getMask (← field j "mask"), geom := ← getGeom j }
+
+def getArrJ (j : Json) : Except String (Impl.Arr Rat) := do
+  let gm ← getGMask j
+  let native ← getRats (← field j "native")
+  if native.length ≠ gm.mask.h * gm.mask.w then throw "shape_mismatch"
+  let sn ← getBool (fieldD j "store_native" (Json.bool false))
+  -- the `Array2D(values=native, mask=mask)` constructor zeroes the masked entries
+  pure { Impl.arrayWithMask native gm 0 with storeNative := sn }
+
+def geomFields (g : Impl.Geom Rat) : List (String × Json) :=
+  [("scales", ratsToJson [g.sy, g.sx]), ("origin", ratsToJson [g.oy, g.ox])]
+
+def gridToJson (l : List (Rat × Rat)) : Json := listToJson (fun p => ratsToJson [p.1, p.2]) l
+
+def gmaskToJson (gm : Impl.GMask Rat) : Json :=
+  obj ([("mask", maskToJson gm.mask)] ++ geomFields gm.geom)
+
+def arrToJson (a : Impl.Arr Rat) : Json :=
+  obj ([("mask", maskToJson a.gm.mask), ("native", ratsToJson a.native),
+        ("slim", ratsToJson (Impl.slimFrom a.gm.mask a.native 0)),
+        ("store_native", Json.bool a.storeNative),
+        ("grid", gridToJson (Impl.gridSlimViaMask a.gm.mask a.gm.geom))] ++ geomFields a.gm.geom)
+
+def getPad (j : Json) (k : String) : Except String Bool := do
+  let v ← getRat (fieldD j k (Json.str "0"))
+  pure (v != 0)
+
+/-- `resized_array_2d_from` on a raw array -/
+def resizedUtil : Op := fun j => do
+  let src ← getRats (← field j "src")
+  let h ← getNat (← field j "h")
+  let w ← getNat (← field j "w")
+  if src.length ≠ h * w then throw "shape_mismatch"
+  let (h', w') ← getPair getNat (← field j "shape")
+  let pad ← getRat (fieldD j "pad" (Json.str "0"))
+  let origin ← match fieldD j "origin" Json.null with
+    | Json.null => pure none
+    | o => do pure (some (← getPair getNat o))
+  pure (ratsToJson (Impl.resizedArray2d src h w h' w' origin pad 0))
+
+/-- `extracted_array_2d_from` on a raw array -/
+def extractedUtil : Op := fun j => do
+  let src ← getRats (← field j "src")
+  let h ← getNat (← field j "h")
+  let w ← getNat (← field j "w")
+  if src.length ≠ h * w then throw "shape_mismatch"
+  let y0 ← getInt (← field j "y0")
+  let y1 ← getInt (← field j "y1")
+  let x0 ← getInt (← field j "x0")
+  let x1 ← getInt (← field j "x1")
+  if y1 < y0 ∨ x1 < x0 then throw "negative_shape"
+  pure (obj [("shape", natsToJson [(y1 - y0).toNat, (x1 - x0).toNat]),
+             ("values", ratsToJson (Impl.extractedArray2d src h w y0 y1 x0 x1 0))])
+
+/-- chain of `Mask2D.resized_from` calls -/
+def maskChain : Op := fun j => do
+  let gm ← getGMask j
+  let steps ← getArr (← field j "steps")
+  let mut cur := gm
+  let mut out : List Json := []
+  for s in steps do
+    let (h', w') ← getPair getNat (← field s "shape")
+    let pad ← getPad s "pad"
+    cur := Impl.maskResizedFrom cur h' w' pad
+    out := out ++ [gmaskToJson cur]
+  pure (Json.arr out.toArray)
+
+/-- chain of `Array2D.resized_from / padded_before_convolution_from / trimmed_after_convolution_from` -/
+def arrayChain : Op := fun j => do
+  let a ← getArrJ j
+  let steps ← getArr (← field j "steps")
+  let mut cur := a
+  let mut out : List Json := []
+  for s in steps do
+    let k ← getStr (← field s "k")
+    match k with
+    | "resize" =>
+      let (h', w') ← getPair getNat (← field s "shape")
+      cur := Impl.arrayResizedFrom cur h' w' (← getPad s "mask_pad") 0
+    | "pad" =>
+      let (kh, kw) ← getPair getNat (← field s "kernel")
+      cur := Impl.paddedBeforeConvolution cur kh kw (← getPad s "mask_pad") 0
+    | "trim" =>
+      let (kh, kw) ← getPair getNat (← field s "kernel")
+      match Impl.trimmedAfterConvolution cur kh kw 0 with
+      | some c => cur := c
+      | none => throw "empty_trim"
+    | _ => throw "bad_step"
+    out := out ++ [arrToJson cur]
+  pure (Json.arr out.toArray)
+
+def trimmedArrayFrom : Op := fun j => do
+  let padded ← getRats (← field j "padded")
+  let (hp, wp) ← getPair getNat (← field j "padded_shape")
+  if padded.length ≠ hp * wp then throw "shape_mismatch"
+  let (ih, iw) ← getPair getNat (← field j "image_shape")
+  match Impl.trimmedArrayFrom padded hp wp ih iw 0 with
+  | none => throw "image_larger_than_padded"
+  | some (r, c, v) => pure (obj [("shape", natsToJson [r, c]), ("native", ratsToJson v)])
+
+def zoom : Op := fun j => do
+  let a ← getArrJ j
+  let buffer ← getInt (← field j "buffer")
+  match Impl.zoomRegion a.gm.mask, Impl.zoomedAroundMask a buffer 0 with
+  | some (y0, y1, x0, x1), some (zh, zw, vals) =>
+    pure (obj [("region", intsToJson [y0, y1, x0, x1]), ("shape", natsToJson [zh, zw]),
+               ("native", ratsToJson vals), ("scales", ratsToJson [a.gm.geom.sy, a.gm.geom.sx])])
+  | _, _ => throw "all_masked"
+
+def applyMask : Op := fun j => do
+  let gm ← getGMask j
+  let data ← getRats (← field j "data")
+  let noise ← getRats (← field j "noise")
+  if data.length ≠ gm.mask.h * gm.mask.w ∨ noise.length ≠ gm.mask.h * gm.mask.w then
+    throw "shape_mismatch"
+  let (kh, kw) ← getPair getNat (← field j "kernel")
+  let (d, n) := Impl.imagingApplyMask data noise gm kh kw 0
+  pure (obj [("padded", Json.bool (!Impl.blurringFits gm.mask kh kw)),
+             ("data", arrToJson d), ("noise", arrToJson n)])
+
+def grid : Op := fun j => do
+  let gm ← getGMask j
+  pure (gridToJson (Impl.gridSlimViaMask gm.mask gm.geom))
+
+def ops : List (String × Op) :=
+  [("c14.resized_util", resizedUtil), ("c14.extracted_util", extractedUtil),
+   ("c14.mask_chain", maskChain), ("c14.array_chain", arrayChain),
+   ("c14.trimmed_array_from", trimmedArrayFrom), ("c14.zoom", zoom),
+   ("c14.apply_mask", applyMask), ("c14.grid", grid)]
 
 end Driver.C14
 
